@@ -53,6 +53,29 @@ func (p *Prog) isUnwrappedStorable(v ssa.Value, unw map[*ssa.Function]bool, dept
 				return true
 			}
 		}
+	case *ssa.Parameter:
+		// a private helper that is handed the storable: every caller hands over an unwrapped one
+		fn := x.Parent()
+		if fn.Object() == nil || fn.Object().Exported() {
+			return false
+		}
+		idx := -1
+		for i, q := range fn.Params {
+			if q == x {
+				idx = i
+			}
+		}
+		sites := p.CallersOf(fn)
+		if idx < 0 || len(sites) == 0 {
+			return false
+		}
+		for _, cs := range sites {
+			a := cs.Instr.Common().Args
+			if cs.Instr.Common().IsInvoke() || len(a) != len(fn.Params) || !p.isUnwrappedStorable(a[idx], unw, depth+1) {
+				return false
+			}
+		}
+		return true
 	}
 	return false
 }
@@ -124,5 +147,5 @@ func n4Unwrapped(p *Prog, r *Report) {
 				"the identity test reads the slab id from an element storable that was not unwrapped: a child stored inside a wrapper (an optional around a nested container) is never recognised as this child - a self-overwrite un-inlines the element just stored, a parent callback takes its own child for a replaced one")
 		})
 	}
-	r.Floor(R, "identity tests on element storables", 10, n)
+	r.Floor(R, "identity tests on element storables", 2, n)
 }
